@@ -4,6 +4,7 @@ package main
 
 import (
 	"bytes"
+	"sort"
 	"context"
 	"fmt"
 	"os"
@@ -21,7 +22,16 @@ type solverRun struct {
 	secs    float64
 }
 
+// solverSlots bounds the number of solver processes running at once (portfolio runs queue instead of oversubscribing the machine).
+var solverSlots = make(chan struct{}, 16)
+
 func runSolverCtx(ctx context.Context, name string, args []string, file string, timeout time.Duration) solverRun {
+	select {
+	case solverSlots <- struct{}{}:
+	case <-ctx.Done():
+		return solverRun{verdict: "cancelled", solver: name}
+	}
+	defer func() { <-solverSlots }()
 	ctx2, cancel := context.WithTimeout(ctx, timeout+2*time.Second)
 	defer cancel()
 	t0 := time.Now()
@@ -86,14 +96,30 @@ func solveObligation(c *Ctx, o *Obligation, idx int, opts solveOpts) {
 		secs = 1
 	}
 	stage1 := to
-	if !o.Canary && stage1 > 2*time.Second {
-		stage1 = 2 * time.Second
+	if !o.Canary && stage1 > 4*time.Second {
+		stage1 = 4 * time.Second
 	}
 	s1 := int(stage1.Seconds())
 	if s1 < 1 {
 		s1 = 1
 	}
 	t0 := time.Now()
+	if !o.Canary {
+		// stage 0: quantifier-free slice
+		sfile := base + ".slice.smt2"
+		os.WriteFile(sfile, []byte(c.scriptSliced(o)), 0o644)
+		r0 := runSolver("z3-new", []string{"-T:2"}, sfile, 2*time.Second)
+		if os.Getenv("GOVC_KEEP") == "" {
+			os.Remove(sfile)
+		}
+		if r0.verdict == "unsat" {
+			o.Solver = "z3-new (qf slice)"
+			o.Time = time.Since(t0).Seconds()
+			o.Status = "discharged"
+			os.Remove(z3file)
+			return
+		}
+	}
 	r := runSolver("z3-new", []string{fmt.Sprintf("-T:%d", s1)}, z3file, stage1)
 	final := r
 	if r.verdict != "unsat" && r.verdict != "sat" && !o.Canary {
@@ -107,10 +133,10 @@ func solveObligation(c *Ctx, o *Obligation, idx int, opts solveOpts) {
 		cfgs := []cfg{
 			{"z3-new", []string{fmt.Sprintf("-T:%d", secs), "smt.random_seed=7"}, z3file},
 			{"z3-new", []string{fmt.Sprintf("-T:%d", secs), "smt.random_seed=13"}, z3file},
-			{"z3-new", []string{fmt.Sprintf("-T:%d", secs), "smt.random_seed=42", "smt.qi.eager_threshold=50"}, z3file},
 			{"cvc5", []string{fmt.Sprintf("--tlimit=%d", to.Milliseconds()), "--lang=smt2"}, cvcfile},
-			{"z3", []string{fmt.Sprintf("-T:%d", secs)}, z3file},
 		}
+		cfgs = append(cfgs, cfg{"z3-new", []string{fmt.Sprintf("-T:%d", secs), "smt.random_seed=42", "smt.qi.eager_threshold=50"}, z3file},
+			cfg{"z3", []string{fmt.Sprintf("-T:%d", secs)}, z3file})
 		ctx, cancel := context.WithCancel(context.Background())
 		results := make(chan solverRun, len(cfgs))
 		for _, cf := range cfgs {
@@ -223,7 +249,152 @@ type job struct {
 	idx int
 }
 
+// incrementalPass checks a chunk of obligations of one function in a single solver session:
+// assertions are added in program order and each obligation is checked with push/pop at the point
+// where it was generated (it sees exactly the assertions made before it). With sliced=true every
+// quantified assumption is left out (sound: fewer hypotheses). Returns the verdict per obligation.
+func incrementalPass(c *Ctx, chunk []job, sliced bool, perCheckMs int, dir string, tag string) map[*Obligation]string {
+	var sb strings.Builder
+	sb.WriteString(fmt.Sprintf("(set-option :timeout %d)\n(declare-sort Str 0)\n", perCheckMs))
+	for _, d := range c.decls {
+		sb.WriteString(d + "\n")
+	}
+	pos := 0
+	for _, j := range chunk {
+		for pos < j.o.N {
+			a := c.asserts[pos]
+			pos++
+			if sliced && (strings.Contains(a.term, "(forall ") || strings.Contains(a.term, "(exists ")) {
+				continue
+			}
+			sb.WriteString("(assert " + a.term + ")\n")
+		}
+		sb.WriteString("(push 1)\n(assert (not " + j.o.Goal + "))\n(check-sat)\n(pop 1)\n")
+	}
+	f := filepath.Join(dir, tag+".smt2")
+	os.WriteFile(f, []byte(sb.String()), 0o644)
+	defer os.Remove(f)
+	total := time.Duration(perCheckMs*len(chunk)+5000) * time.Millisecond
+	r := runSolver("z3-new", nil, f, total)
+	res := map[*Obligation]string{}
+	lines := strings.Split(r.out, "\n")
+	k := 0
+	for _, ln := range lines {
+		ln = strings.TrimSpace(ln)
+		if ln == "unsat" || ln == "sat" || ln == "unknown" || ln == "timeout" {
+			if k < len(chunk) {
+				res[chunk[k].o] = ln
+				k++
+			}
+		}
+	}
+	return res
+}
+
+var chunkSize = func() int {
+	if v := os.Getenv("GOVC_CHUNK"); v != "" {
+		var n int
+		fmt.Sscanf(v, "%d", &n)
+		if n > 0 {
+			return n
+		}
+	}
+	return 16
+}()
+
+func chunkJobs(js []job, n int) [][]job {
+	var out [][]job
+	for len(js) > 0 {
+		k := n
+		if len(js) < k {
+			k = len(js)
+		}
+		out = append(out, js[:k])
+		js = js[k:]
+	}
+	return out
+}
+
+// solveAll decides every obligation: canaries/covers stand alone; the others first in incremental sessions
+// (quantifier-free slice, then full assumptions), and whatever remains undecided goes to the stand-alone portfolio.
 func solveAll(jobs []job, opts solveOpts, workers int) {
+	byCtx := map[*Ctx][]job{}
+	var order []*Ctx
+	var rest []job
+	for _, j := range jobs {
+		if j.o.Canary {
+			rest = append(rest, j)
+			continue
+		}
+		if _, ok := byCtx[j.c]; !ok {
+			order = append(order, j.c)
+		}
+		byCtx[j.c] = append(byCtx[j.c], j)
+	}
+	runPass := func(sliced bool, perCheckMs int, label string) {
+		type task struct {
+			c     *Ctx
+			chunk []job
+			tag   string
+		}
+		var tasks []task
+		n := 0
+		for _, c := range order {
+			js := byCtx[c]
+			sort.SliceStable(js, func(a, b int) bool { return js[a].o.N < js[b].o.N })
+			var todo []job
+			for _, j := range js {
+				if j.o.Status == "" {
+					todo = append(todo, j)
+				}
+			}
+			for _, ch := range chunkJobs(todo, chunkSize) {
+				n++
+				tasks = append(tasks, task{c, ch, fmt.Sprintf("inc%s%05d", label, n)})
+			}
+		}
+		ch := make(chan task)
+		var wg sync.WaitGroup
+		for w := 0; w < workers; w++ {
+			wg.Add(1)
+			go func() {
+				defer wg.Done()
+				for t := range ch {
+					t0 := time.Now()
+					res := incrementalPass(t.c, t.chunk, sliced, perCheckMs, opts.dir, t.tag)
+					per := time.Since(t0).Seconds() / float64(len(t.chunk))
+					for _, j := range t.chunk {
+						if res[j.o] == "unsat" {
+							j.o.Status = "discharged"
+							j.o.Solver = "z3-new incremental (" + label + ")"
+							j.o.Time = per
+						}
+					}
+				}
+			}()
+		}
+		for _, t := range tasks {
+			ch <- t
+		}
+		close(ch)
+		wg.Wait()
+	}
+	if os.Getenv("GOVC_NOINC") == "" {
+		tp := time.Now()
+		runPass(false, 2500, "full")
+		t1 := time.Since(tp).Seconds()
+		runPass(true, 1500, "qf-slice")
+		if os.Getenv("GOVC_TIMING") != "" {
+			fmt.Printf("timing: full pass %.1fs, qf-slice pass %.1fs\n", t1, time.Since(tp).Seconds()-t1)
+		}
+	}
+	for _, c := range order {
+		for _, j := range byCtx[c] {
+			if j.o.Status == "" {
+				rest = append(rest, j)
+			}
+		}
+	}
 	ch := make(chan job)
 	var wg sync.WaitGroup
 	for w := 0; w < workers; w++ {
@@ -235,7 +406,7 @@ func solveAll(jobs []job, opts solveOpts, workers int) {
 			}
 		}()
 	}
-	for _, j := range jobs {
+	for _, j := range rest {
 		ch <- j
 	}
 	close(ch)
